@@ -26,6 +26,7 @@ class MErr(Exception):
         self.etype, self.marker, self.is_glom = etype, marker, is_glom
         self.path = [(node, target)]
         self.branches = {}
+        self.inline_ok = {}      # id(node) -> may a single failed branch be rendered inline?
 
 
 class Node:
@@ -68,6 +69,8 @@ def build(G, B, r):
         kw = {}
         if 'default' in o:
             kw['default'] = B.value(o['default'])
+        if 'skip' in o:
+            kw['skip'] = B.value(o['skip'])
         return Node('Coalesce', r, G.Coalesce(*[c.obj for c in ch], **kw), ch, extra=o)
     if k in ('Or', 'And'):
         ch = [build(G, B, x) for x in r[1]]
@@ -166,19 +169,26 @@ class Walker:
             return cur
         if k == 'Coalesce':
             failed = []
+            last_failed = False
             for c in n.children:
                 try:
-                    return self.ev(c, t)
+                    v = self.ev(c, t)
+                    if 'skip' in n.extra and v == n.extra['skip'] and type(v) is type(n.extra['skip']):
+                        last_failed = False     # a skipped VALUE: evaluated, not failed, try the next one
+                        continue
+                    return v
                 except MErr as e:
                     if not e.is_glom:
                         if failed:
                             e.branches[id(n)] = failed
                         raise
                     failed.append((c, e))
+                    last_failed = True
             if 'default' in n.extra:
                 return n.extra['default']
             err = MErr('CoalesceError', 'no valid values found', True, n, t)
             err.branches[id(n)] = failed
+            err.inline_ok[id(n)] = last_failed
             raise err
         if k == 'Or':
             failed = []
@@ -354,9 +364,14 @@ def embed(root, record, fmt):
         # ---- branches of this ancestor
         if failed:
             attempted = len(failed) + (0 if last else 1)
-            if attempted == 1:
-                # inline rendering: the single failed branch follows in the same block
-                pass
+            inline = attempted == 1 and record.get('inline_ok', {}).get(nid, True)
+            if inline:
+                # inline rendering: the single failed branch follows in the same block, with its error
+                bs, etype, marker = failed[0]
+                tail_ = block[i + 1:]
+                if not any(x.typ == 'S' and _matches(x.text, bs) for x in tail_) or \
+                        not _block_has_error(tail_, etype, marker):
+                    return ['inline-branch-missing', bs, etype]
             else:
                 if len(e.blocks) != attempted:
                     return ['branch-count', path[pi][0], attempted, len(e.blocks)]
@@ -371,7 +386,7 @@ def embed(root, record, fmt):
         if last:
             # innermost failing spec: nothing but error lines (and, for a branching spec, its blocks) may follow
             rest = [x for x in block[i + 1:] if x.typ == 'S']
-            if failed and len(failed) == 1 and not e.blocks:
+            if failed and inline and not e.blocks:
                 # inline single branch: its Spec lines legitimately follow
                 return None
             if rest:
@@ -401,6 +416,24 @@ def _block_has_error(blk, etype, marker):
             if _block_has_error(b, etype, marker):
                 return True
     return False
+
+
+def order_problems(block):
+    """'lists in evaluation order … and the error that ended it': an error is reported once, where it
+    was first observed.  The same error line twice in one block means it is also shown at a level
+    *before* the steps that led to it.  (A combinator's OWN error directly under its Spec line, followed
+    by an inline branch, is a different error text and is fine.)"""
+    out = []
+    seen = {}
+    for e in block:
+        if e.typ == 'E':
+            if e.text in seen:
+                out.append(['duplicate-error-line', e.text[:100]])
+                break
+            seen[e.text] = True
+        for b in e.blocks:
+            out.extend(order_problems(b))
+    return out
 
 
 def all_spec_texts(block, out=None):
